@@ -11,14 +11,33 @@ SCENARIOS = [
                                              {"op": "set", "name": "b.lua", "text": c09.B}]},
     {"id": "remove_and_readd", "steps": [{"op": "set", "name": "a.lua", "text": c09.A1}, {"op": "set", "name": "b.lua", "text": c09.B}, {"op": "remove", "name": "a.lua"},
                                          {"op": "set", "name": "a.lua", "text": c09.A2}, {"op": "set", "name": "b.lua", "text": c09.B}]},
+    {"id": "split_class_supers", "steps": [{"op": "set", "name": "base.lua", "text": "---@class Base1\n---@field one integer\n\n---@class Base2\n---@field two integer\n"},
+                                            {"op": "set", "name": "a.lua", "text": "---@class Foo: Base1\n---@field x integer\n"},
+                                            {"op": "set", "name": "b.lua", "text": "---@class Foo: Base2\n---@field y integer\n"},
+                                            {"op": "set", "name": "use.lua", "text": "---@type Foo\nlocal v\nprint(v.one, v.two, v.x, v.y)\n"},
+                                            {"op": "remove", "name": "a.lua"},
+                                            {"op": "set", "name": "use.lua", "text": "---@type Foo\nlocal v\nprint(v.one, v.two, v.x, v.y)\n"}]},
+    {"id": "loose_file_closed", "steps": [{"op": "set", "name": "keep.lua", "text": "---@class Keep\n---@field a integer\nKeepGlobal = {}\n"},
+                                           {"op": "set", "path": "/c10-not-a-workspace-root/scratch/loose.lua", "text": "---@class LooseClass\n---@field x integer\nLooseGlobal = 1\nfunction loose_fn() return 1 end\n"},
+                                           {"op": "set", "name": "use.lua", "text": "---@type LooseClass\nlocal v = nil\nlocal n = LooseGlobal\nlocal r = loose_fn()\nprint(v, n, r, KeepGlobal)\n"},
+                                           {"op": "remove", "path": "/c10-not-a-workspace-root/scratch/loose.lua"},
+                                           {"op": "set", "name": "use.lua", "text": "---@type LooseClass\nlocal v = nil\nlocal n = LooseGlobal\nlocal r = loose_fn()\nprint(v, n, r, KeepGlobal)\n"}]},
+    {"id": "required_module_removed", "steps": [{"op": "set", "name": "lib.lua", "text": "---@class LibPoint\n---@field x integer\nlocal M = {}\nM.answer = 42\n---@return LibPoint\nfunction M.new() return { x = 1 } end\nreturn M\n"},
+                                                {"op": "set", "name": "use.lua", "text": "local lib = require(\"lib\")\nlocal p = lib.new()\nprint(p.x, lib.answer)\n"},
+                                                {"op": "remove", "name": "lib.lua"},
+                                                {"op": "set", "name": "use.lua", "text": "local lib = require(\"lib\")\nlocal p = lib.new()\nprint(p.x, lib.answer)\n"}]},
+    {"id": "remove_two_files", "steps": [{"op": "set", "name": "a.lua", "text": c09.A1}, {"op": "set", "name": "c.lua", "text": "---@class Bar\n---@operator add(Bar): Bar\nBarG = {}\n"},
+                                          {"op": "set", "name": "b.lua", "text": c09.B}, {"op": "remove", "name": "a.lua"}, {"op": "remove", "name": "c.lua"},
+                                          {"op": "set", "name": "b.lua", "text": c09.B}]},
     {"id": "remove_using_file", "steps": [{"op": "set", "name": "a.lua", "text": c09.A1}, {"op": "set", "name": "b.lua", "text": c09.B}, {"op": "remove", "name": "b.lua"}]},
 ]
 
 
 def run(out):
-    out.functions = ["<DbIndex as LuaIndex>::remove", "EmmyLuaAnalysis::remove_file_by_uri", "LuaCompilation::remove_index", "DbIndex::remove_index"]
+    out.functions = ["<DbIndex as LuaIndex>::remove", "EmmyLuaAnalysis::remove_file_by_uri", "LuaCompilation::remove_index", "DbIndex::remove_index",
+                     "<T as LuaIndex>::{remove,clear} and the self-methods remove reaches, for the 14 index types", "EmmyLuaAnalysis::update_file_by_uri", "EmmyLuaAnalysis::update_remote_file_by_uri"]
     out.bounds = {"paths": "all paths of the listed functions"}
-    out.outside = ["what each index's remove(file) leaves behind inside its maps", "memory release", "LSP-level results (workspace symbols, completion)"]
+    out.outside = ["which entries of a table each index's remove(file) deletes (only: every file-fed table is reachable for mutation from remove)", "memory release", "LSP-level results (workspace symbols, completion)"]
     out.assumptions = ["a call that receives `&mut self.field` and the file id removes that file's facts from the field (each index's own remove is outside)",
                        "the set of index types is read from `impl LuaIndex for T` in db_index/"]
     mc = mflow.MContext(out)
@@ -27,6 +46,9 @@ def run(out):
         ix.delegation(out, mc, "remove", pending)
         ix.analysis_glue(out, mc, "remove", pending)
         dbri(out, mc, pending)
+        ix.remove_frames(out, mc, pending)
+        ix.update_glue(out, mc, pending)
+        ix.remove_prunes(out, mc, pending)
     except (symex.Unsupported, RuntimeError, KeyError, ValueError, IndexError, AttributeError, TypeError) as e:
         import traceback
         out.fatal = "engine M could not encode the current source: %r\n%s" % (e, traceback.format_exc()[-1500:])
